@@ -71,6 +71,13 @@ InitState(i) ==
    \* announce its visit ("flow") and arm the node ("arriving") before it notices
    ghost   |-> {},
    intr    |-> {},        \* <<task, occ>> requests interrupted by a boundary event
+   \* AS-IS mode (known deviations of the pinned implementation, findings F10, F10b, F10c, F11, F22,
+   \* modelled as what the code does so that a run that shows one of them is still examined to
+   \* its end): a boundary event is ONE listener flow started with the host's first activation;
+   \* it fires at most once in the instance's life, never interrupts the host, and keeps the
+   \* instance from completing until it has fired.  Never set by a check's own verdict pass.
+   asis    |-> FALSE,
+   bfired  |-> {},        \* boundary events whose listener flow has left (as-is mode)
    nkill   |-> 0,         \* tokens stopped by an exit answer / exhausted retries
    cancelled |-> FALSE,   \* the instance's context was cancelled
    parked  |-> FALSE,     \* ... while it had been silent for a while with requests unanswered
@@ -275,7 +282,8 @@ SubExitMoves(s) ==
 (*           (must be worked off first; concurrent deliveries are unordered)  *)
 Listeners(s, c) ==
   IF Node(s.p, c).kind = "boundary"
-  THEN {t \in Toks(s) : t.at = Node(s.p, c).attached /\ t.st \in {"req", "sub"}}
+  THEN IF s.asis /\ c \in s.bfired THEN {}
+       ELSE {t \in Toks(s) : t.at = Node(s.p, c).attached /\ t.st \in {"req", "sub"}}
   ELSE {t \in Toks(s) : t.at = c /\ t.st = "listen"}
 Arriving(s, c) == {t \in Toks(s) : t.at = c /\ t.st = "arriving"}
 
@@ -351,7 +359,10 @@ Caught(s, c) ==
            \* tokens of the interrupted activity: the host token itself and, for
            \* a sub-process host, every token of that activation of the scope
            gone == {h} \cup (IF h.st = "sub" THEN {t \in Toks(s) : h.occ \in SeqRange(t.inst)} ELSE {})
-       IN  IF n.intr
+       IN  IF s.asis
+           THEN \* as-is: the exception flow starts (once ever), the host is left alone
+                [s EXCEPT !.tok = AddToks(@, {exc}), !.bfired = @ \cup {c}]
+           ELSE IF n.intr
            THEN \* interrupting: the exception flow replaces the normal flow;
                 \* an answer to an interrupted request has no effect any more
                 [s EXCEPT !.tok = AddToks([t \in DOMAIN @ \ gone |-> @[t]], {exc}),
@@ -470,7 +481,9 @@ Payloads(i, n) ==
 
 (* Completion: all start events fired and no token remains.                  *)
 Live(s)     == {t \in Toks(s) : t.st \notin {"err", "dead"}}
-Complete(s) == s.started /\ Toks(s) = {}
+Complete(s) == /\ s.started /\ Toks(s) = {}
+               \* (as-is: an armed boundary listener that has not fired is a live flow)
+               /\ s.asis => \A b \in NodesOfKind(s.p, "boundary") : s.lstn[b] = 0 \/ b \in s.bfired
 CeaseMoves(s) ==
   IF Complete(s) /\ ~s.ceased THEN {Mv(Lab("cease", "", 0), [s EXCEPT !.ceased = TRUE])} ELSE {}
 
